@@ -122,8 +122,7 @@ def set_store(
             )
         from .codecs.databricks import DBFSStore, CommitType, DBFSURI
 
-        commit_type = str(commit_type or CommitType.FULL.name).upper()
-        commit_type_ = CommitType[commit_type]
+        commit_type_ = CommitType.parse(commit_type)
 
         _store_var = DBFSStore(
             DBFSURI.parse(internal_dir), DBFSURI.parse(data_dir), dbutils, commit_type_
